@@ -95,7 +95,7 @@ TRIPLES_THOROUGH = [s for s in _seqs(3) if _fslots(s) <= 5] + ["isx"]
 TIERS = {
     "quick": {
         "one": SEQS_1,
-        "rot": [s for s in _seqs(2) if _fslots(s) <= 5] + ["xx", "ic", "tp"],
+        "rot": [s for s in _seqs(2) if _fslots(s) <= 5] + ["xx", "ic", "it"],
         "full": [],
         "rot3": TRIPLES_QUICK,
         "naming": [1, 2],
